@@ -1,43 +1,51 @@
-(* C07 - property theorems (statements only; the proofs live in Acme.C01.ProofsXxx / Acme.C07.Proofs). *)
+(* C07 - property theorems (statements only; the proofs live in Acme.C01.ProofsXxx / Acme.C07.ProofsXxx). *)
 From Coq Require Import ZArith List.
-From Acme.C01 Require Import Layout State Model ProofsLayout ProofsInv Refuted ProofsT1.
-From Acme.C07 Require Import Model Proofs.
-From Acme.C01 Require Import Examples.
+From Acme.C01 Require Import Layout State Model ProofsLayout ProofsInv Refuted ProofsT1 Examples.
+From Acme.C07 Require Import Model Proofs ProofsReg.
 Import ListNotations.
 Open Scope Z_scope.
 
-(* A multiplexer's size is its group size plus the selector width for its group count. *)
+(* The hypotheses [ok_hist_f] / [ok_op_f] are those of Properties/C01.v (T1): they only exclude the
+   open findings D20 (re-attachment), D35 (a resized multiplexed signal followed by a signal held by
+   two or more groups), D36 (two signals of one layout on a growing enum) and D03 (SetMinSize). *)
+
+(* A multiplexer's size is its group size plus the selector width for its group count ... *)
 Theorem mux_size : forall s u c g, kind s u = KMux c g -> sz s u = (g + selw c)%Z.
-Proof. exact mux_size_proof. Qed.
+Proof. exact mux_size_spec. Qed.
 Print Assumptions mux_size.
 
-(* Every group of every multiplexer is a well-formed layout within the group size, in every state
-   reached by a history satisfying the per-step hypotheses (see Properties/C01.v, T1). *)
-Theorem groups_wf : forall ops, ok_hist_w ops -> forall u g,
+(* ... and the selector width is the least number of bits (at least one) addressing `count` groups *)
+Theorem selector_width_spec : forall c, 1 <= c ->
+  1 <= selw c /\ c <= 2 ^ selw c /\ (2 <= c -> 2 ^ (selw c - 1) < c).
+Proof. exact selw_spec. Qed.
+Print Assumptions selector_width_spec.
+
+(* Every group of every multiplexer is a well-formed layout within the group size. *)
+Theorem groups_wf : forall ops, ok_hist_f ops -> forall u g,
   wf (mux_gsize (run ops) u) (group_view (run ops) u g).
-Proof. exact t1_groups_wf. Qed.
+Proof. exact groups_wf_f. Qed.
 Print Assumptions groups_wf.
 
 (* A signal inserted without group ids (fixed) is present in every group (at its one relative
    position) and has no group ids. *)
-Theorem membership_fixed : forall ops, ok_hist_w ops -> forall u x, ufixed (run ops) u x = true ->
+Theorem membership_fixed : forall ops, ok_hist_f ops -> forall u x, ufixed (run ops) u x = true ->
   (forall g, (Z.of_nat g < mux_count (run ops) u) -> In x (gget (run ops) u g))
   /\ ugids (run ops) u x = None.
-Proof. exact membership_fixed_w. Qed.
+Proof. exact membership_fixed_f. Qed.
 Print Assumptions membership_fixed.
 
 (* A signal inserted with group ids is present in exactly those groups; the ids are distinct,
    inside 0..count-1, and the signal is not fixed. *)
-Theorem membership_ids : forall ops, ok_hist_w ops -> forall u x ids, ugids (run ops) u x = Some ids ->
+Theorem membership_ids : forall ops, ok_hist_f ops -> forall u x ids, ugids (run ops) u x = Some ids ->
   (forall g : nat, In x (gget (run ops) u g) <-> In (Z.of_nat g) ids)
   /\ NoDup ids /\ ids <> [] /\ (forall g, In g ids -> 0 <= g < mux_count (run ops) u) /\ ufixed (run ops) u x = false.
-Proof. exact membership_ids_w. Qed.
+Proof. exact membership_ids_f. Qed.
 Print Assumptions membership_ids.
 
 (* every signal listed by a group is fixed or grouped there, and that multiplexer is its parent *)
-Theorem membership_cover : forall ops, ok_hist_w ops -> forall u g x, In x (gget (run ops) u g) ->
+Theorem membership_cover : forall ops, ok_hist_f ops -> forall u g x, In x (gget (run ops) u g) ->
   (ufixed (run ops) u x = true \/ ugids (run ops) u x <> None) /\ pmux (run ops) x = Some u.
-Proof. exact membership_cover_w. Qed.
+Proof. exact membership_cover_f. Qed.
 Print Assumptions membership_cover.
 
 (* insert_refused_iff: an insertion is accepted exactly when the name is free and
@@ -49,25 +57,42 @@ Theorem insert_refused_iff : forall s u x b gids, InvA s -> InvM s -> vmux s u =
 Proof. exact mux_insert_accepted_iff. Qed.
 Print Assumptions insert_refused_iff.
 
+(* abs_start_bit: the absolute start bit of a multiplexed signal is its parent's start bit plus the
+   selector width plus its relative position, at every nesting depth (the parent chain is
+   well-founded: sizes grow strictly towards the root), and a signal without parent multiplexer
+   starts at its relative position *)
+Theorem abs_start_bit : forall ops, ok_hist_f ops -> forall x u, pmux (run ops) x = Some u ->
+  start_bit (run ops) x = start_bit (run ops) u + selw (mux_count (run ops) u) + rel (run ops) x.
+Proof. exact abs_start_bit_f. Qed.
+Print Assumptions abs_start_bit.
+
+Theorem abs_start_bit_top : forall s x, pmux s x = None -> start_bit s x = rel s x.
+Proof. exact abs_start_bit_top_f. Qed.
+Print Assumptions abs_start_bit_top.
+
 (* message_view_in_step: inserting, removing, shifting, resizing or clearing (any operation
    satisfying its hypothesis) at any depth keeps every group and every message layout well-formed
-   and the membership bookkeeping exact *)
-Theorem message_view_in_step : forall s o, InvA s -> InvM s -> ok_op_w s o ->
-  InvA (fst (step s o)) /\ InvM (fst (step s o)).
-Proof. exact step_keeps_invariants. Qed.
+   (InvA), the membership bookkeeping exact (InvM) and the owning message's registry and the
+   parent-message pointers equal to the layout tree (InvR) ... *)
+Theorem message_view_in_step : forall s o, InvA s -> InvM s -> InvR s -> ok_op_f s o ->
+  InvA (fst (step s o)) /\ InvM (fst (step s o)) /\ InvR (fst (step s o)).
+Proof. exact step_keeps_invariants3. Qed.
 Print Assumptions message_view_in_step.
 
-(* abs_start_bit, partial: one unfolding of the GetStartBit recursion (the fuel-free statement
-   [abs_start_bit_full] needs the well-foundedness of the parent chain and is not proved; the
-   formula is evaluated on the implementation at every depth by vinv.CheckMultiplexer). *)
-Theorem abs_start_bit_partial : forall f s x u, pmux s x = Some u ->
-  abs_start (S f) s x = abs_start f s u + selw (mux_count s u) + rel s x.
-Proof. exact abs_start_step. Qed.
-Print Assumptions abs_start_bit_partial.
+(* ... so that in every reached state the message finds (GetSignal) exactly the signals of its
+   layout tree, and exactly those report it as their parent message *)
+Theorem message_view : forall ops, ok_hist_f ops -> forall m x,
+  (memb x (gsigs (run ops) m) = true <-> in_tree (run ops) m x)
+  /\ (pmsg (run ops) x = Some m <-> in_tree (run ops) m x).
+Proof. exact message_view_reachable. Qed.
+Print Assumptions message_view.
 
-Theorem abs_start_bit_top : forall f s x, pmux s x = None -> abs_start f s x = rel s x.
-Proof. exact abs_start_top. Qed.
-Print Assumptions abs_start_bit_top.
+(* Non-vacuity: a multiplexer attached to a message with a nested multiplexer, fixed / two-group /
+   repeated insertion, SetType (shrink and grow) inside the nested multiplexer, shift, clear-group,
+   removals (also Message.RemoveSignal with a nested id) satisfies the hypotheses. *)
+Theorem hypotheses_satisfiable : ok_hist_f mux_example_ops.
+Proof. exact mux_example_ok. Qed.
+Print Assumptions hypotheses_satisfiable.
 
 (* the unconditioned statement is refuted by the faithful model (finding D35) *)
 Theorem groups_wf_full_refuted : ~ groups_wf_full.
@@ -81,9 +106,3 @@ Print Assumptions d35_refuted.
 Theorem d35_grow_refuted : exists ops u g, ~ wf (mux_gsize (run ops) u) (group_view (run ops) u g).
 Proof. exact groups_full_refuted_d35_grow. Qed.
 Print Assumptions d35_grow_refuted.
-
-(* Non-vacuity: a concrete multiplexer history (fixed, two-group, repeated insertion into a further
-   group, shift, clear-group, remove) satisfies the hypotheses. *)
-Theorem hypotheses_satisfiable : ok_hist_w mux_example_ops.
-Proof. exact mux_example_ok. Qed.
-Print Assumptions hypotheses_satisfiable.
